@@ -98,6 +98,8 @@ REFUSALS = {
     'add_symlink:target-beyond-one-continuation-block': ('rr', 'add_symlink', [], dict(symlink_path='/SYM.;1', rr_symlink_name='sym', rr_path='/'.join(['ab'] * 700))),
     # in-place modification of an image that was never opened from a file (K74: changed the object, then AttributeError)
     'modify_file_in_place:on-a-new-image': ('plain', 'modify_file_in_place', ['FILE', 4, '/FOO.;1'], {}),
+    # the first relocation needs a holding directory whose Rock Ridge name (rr_moved) another entry of the root already has (K79)
+    'add_directory:rr-moved-name-taken': ('rr-deep7-rr_moved-taken', 'add_directory', [], dict(iso_path='/D1/D2/D3/D4/D5/D6/D7/D8', rr_name='d8')),
     # a file mode outside 32 bits (K71: accepted, the next write failed)
     'add_fp:file-mode-too-big': ('rr', 'add_fp', ['FILE', 4], dict(iso_path='/BAR.;1', rr_name='bar', file_mode=1 << 32)),
     'add_fp:file-mode-negative': ('rr', 'add_fp', ['FILE', 4], dict(iso_path='/BAR.;1', rr_name='bar', file_mode=-1)),
